@@ -46,7 +46,7 @@ fn main() {
         // agent histories depend on per-instance hash-map order: repeat the case
         let mut outcome = Ok(());
         for _ in 0..32 {
-            match guard(|| (prop.replay)(&rf.check, &rf.case, &mut st)) {
+            match guard(|| maybe_traced(rf.traced, || (prop.replay)(&rf.check, &rf.case, &mut st))) {
                 Ok(Ok(r)) => {
                     if r.is_err() {
                         outcome = r;
